@@ -22,8 +22,11 @@ var (
 	}
 )
 
+// TakeRuntimeContext hands out a pooled context with the options of a first call.
 func TakeRuntimeContext() *RuntimeContext {
-	return runtimeContextPool.Get().(*RuntimeContext)
+	ctx := runtimeContextPool.Get().(*RuntimeContext)
+	*ctx.Option = Option{}
+	return ctx
 }
 
 func ReleaseRuntimeContext(ctx *RuntimeContext) {
